@@ -118,6 +118,34 @@ class SList(Model):
         st.heap[(self.name, 'arr')] = z3.Lambda([j], z3.If(j < i, z3.Select(a, j), z3.Select(a, j + 1)))
         st.heap[(self.name, 'len')] = self.length(st) - 1
 
+    def m_getattr(self, ex, st, name, node):
+        if name == 'pop':
+            def pop(ex_, st_, args, kwargs, node_):
+                if args or kwargs:
+                    raise NotInSubset('list.pop(i)')
+                n = to_int(self.length(st_))
+                ex_.prove(st_, f'no-exception:IndexError pop from empty {self.name}', n >= 1, node_)
+                v = SInt(z3.Select(self.arr(st_), n - 1))
+                self.m_delitem(ex_, st_, -1, node_)
+                return v
+            return _Method(pop)
+        if name == 'insert':
+            def insert(ex_, st_, args, kwargs, node_):
+                if len(args) != 2 or kwargs:
+                    raise NotInSubset('list.insert arguments')
+                a, n, p, xi = self.arr(st_), to_int(self.length(st_)), to_int(args[0]), to_int(args[1])
+                # list.insert clamps the position; only positions inside [0, len] are modelled
+                ex_.prove(st_, f'modelled use of list.insert: 0 <= position <= len({self.name})', z3.And(p >= 0, p <= n), node_)
+                k, xx = z3.Int('j!ins'), z3.Int('x!ins')
+                ps = self.pos(st_)
+                st_.heap[(self.name, 'mem')] = z3.Store(self.mem(st_), xi, z3.BoolVal(True))
+                st_.heap[(self.name, 'pos')] = z3.Lambda([xx], z3.If(xx == xi, p, z3.If(z3.Select(ps, xx) >= p, z3.Select(ps, xx) + 1, z3.Select(ps, xx))))
+                st_.heap[(self.name, 'arr')] = z3.Lambda([k], z3.If(k < p, z3.Select(a, k), z3.If(k == p, xi, z3.Select(a, k - 1))))
+                st_.heap[(self.name, 'len')] = self.length(st_) + 1
+                return None
+            return _Method(insert)
+        raise NotInSubset(f'list.{name}')
+
     def m_len(self, ex, st, node):
         return self.length(st)
 
